@@ -2,6 +2,7 @@ package sa
 
 import (
 	"fmt"
+	"go/token"
 	"go/types"
 	"sort"
 
@@ -121,11 +122,14 @@ func (p *Prog) JoinedGo(g *ssa.Go) (bool, string) {
 	for _, add := range adds {
 		recv, _ := isWGMethod(add, "Add")
 		k, okc := constInt(callOf(add).Args[1])
-		if !okc || k < 1 {
+		if (!okc || k < 1) && !p.isLenCall(callOf(add).Args[1]) {
 			continue
 		}
 		if !p.OncePer(add, g) {
-			continue
+			// alternative: Add(len(S)) once before a range over S that spawns exactly once per element
+			if !p.addLenBeforeRange(add, g) {
+				continue
+			}
 		}
 		// Wait post-dominates g
 		okWait, _ := AllPathsPass(g, false, func(in ssa.Instruction) bool {
@@ -249,4 +253,56 @@ func kindName(in ssa.Instruction) string {
 		return "defer"
 	}
 	return "call"
+}
+
+func (p *Prog) isLenCall(v ssa.Value) bool {
+	call, ok := v.(*ssa.Call)
+	if !ok {
+		return false
+	}
+	b, ok := call.Call.Value.(*ssa.Builtin)
+	return ok && b.Name() == "len"
+}
+
+// addLenBeforeRange: add is wg.Add(len(S)), dominates g, lies outside the loop
+// that contains g, and g executes exactly once per element of a range over S.
+func (p *Prog) addLenBeforeRange(add ssa.Instruction, g *ssa.Go) bool {
+	arg := callOf(add).Args[1]
+	if !p.isLenCall(arg) {
+		return false
+	}
+	S := arg.(*ssa.Call).Call.Args[0]
+	if !instrDominates(add, g) || p.LoopDepth(add.Block()) != p.LoopDepth(g.Block())-1 {
+		return false
+	}
+	ok := false
+	funcInstrs(g.Parent(), func(in ssa.Instruction) {
+		u, isU := in.(*ssa.UnOp)
+		if !isU || u.Op != token.MUL {
+			return
+		}
+		ia, isIA := u.X.(*ssa.IndexAddr)
+		if !isIA || ia.X != S {
+			return
+		}
+		// range index: phi(-1, phi+1) + 1, compared with len(S)
+		bo, isB := ia.Index.(*ssa.BinOp)
+		if !isB || bo.Op != token.ADD {
+			return
+		}
+		ph, isPh := bo.X.(*ssa.Phi)
+		if k, okk := constInt(bo.Y); !isPh || !okk || k != 1 {
+			return
+		}
+		init := false
+		for _, e := range ph.Edges {
+			if k, okk := constInt(e); okk && k == -1 {
+				init = true
+			}
+		}
+		if init && p.OncePer(u, g) {
+			ok = true
+		}
+	})
+	return ok
 }
